@@ -25,7 +25,7 @@ claim("C05", "must-pass-through / who-may-write / table-wiring rules over syntax
       "All-paths accounting discipline: one step charge of the right kind first in every compute arm, start-up before the loop, flush before Done and linear in counts, cost -> pay -> call, single writer of the budget testing both dimensions, 400 cost-parameter wirings name-checked against the field they initialise, mem/cpu sized identically for 91 builtins.",
       "values of size measures and costing polynomials and the ledger's coefficient vectors are not decided", "DESIGN.md §3 C05", "shape+flow")
 claim("C06", "sibling-table agreement between type checker and evaluator; force-discipline lint over builder chains",
-      "Rules out structural run-time errors that come from table drift: checker signature = evaluator unwrappers for 91 builtins, force counts on every Term::Builtin chain, Data representation tables inverse per type kind. Thin: soundness of inference is not claimed.",
+      "Rules out structural run-time errors that come from table drift: checker signature = evaluator unwrappers for 91 builtins, force counts on every Term::Builtin chain, Data representation tables inverse per type kind; plus three clauses of the checker itself: type equality / unification compare list lengths wherever they zip, opaque erasure recurses into every type component, and the implicit-cast flag of unify depends on the expected type only. Thin: soundness of inference is not claimed.",
       "type soundness proper (unification, generalisation, opaque erasure, monomorphisation) is not decided", "DESIGN.md §3 C06")
 claim("C08", "sibling-table agreement over the flat codec, per-arm version consistency, derived-hash structural rule",
       "Encoder and decoder tables (Term x3, Constant/Type x6, 91 builtin tags, 4 binders) bijective and equal row by row incl. field order and payload types; every Plutus-version branch internally consistent; hash derived from the code in the same call and never stored.",
